@@ -2,10 +2,12 @@
    Expression level: the mirror of sys::mode against the documented grammar
    [dfa]:[ugoa][-+=][rwx](,...)*.  Tree level (Memfs/ChmodFacts.v): chown sets the ids of exactly the entries its
    traversal yields and changes nothing else; chmod changes nothing but mode fields, and only of entries its traversal
-   names. (Which entries a traversal yields is C08's subject; the value a mode becomes is the expression level.) *)
+   names. (Which entries a traversal yields is C08's subject; the value a mode becomes is the expression level.) Without
+   follow the two are put together for chown: in every well-formed state it succeeds and sets the requested ids on exactly the
+   argument (recursive: everything at or below it) and changes nothing else (Memfs/LinkFacts.v, from C08's exactness theorem). *)
 From stdpp Require Import gmap.
 From Coq Require Import List NArith.
-From RV Require Import Base.Str Path.Helpers Path.Expand Chmod.Sym Chmod.SymFacts Memfs.State Memfs.Ops Memfs.Walk Memfs.WalkOps Memfs.ChmodFacts.
+From RV Require Import Base.Str Path.Helpers Path.Expand Chmod.Sym Chmod.SymFacts Memfs.State Memfs.Ops Memfs.Walk Memfs.WalkOps Memfs.ChmodFacts Memfs.Wf Memfs.LinkFacts.
 Local Open Scope N_scope.
 
 (* any number of well-formed clauses: every applicable clause is applied, in order *)
@@ -75,3 +77,12 @@ Theorem C11_chmod_frame : forall env m s o m' r, (forall q t, m_ents m !! q = So
             (chmod_pre_check o) p = inl (Done evs) -> T = ev_entry_paths evs).
 Proof. exact chmod_frame. Qed.
 Print Assumptions C11_chmod_frame.
+
+(* chown without follow: exactly the argument (recursive: everything at or below it) gets exactly the requested ids *)
+Theorem C11_chown_nofollow : forall env m s o p r, WF m -> co_follow o = false -> resolve env m s = inl p -> m_ents m !! p = Some r ->
+  exists m', chown_op env m s o = Done (m', inl tt) /\
+    (forall q, m_ents m' !! q = if bool_decide (p `suffix_of` q /\ (co_recursive o = true \/ q = p))
+                           then (fun x => set_owner x (co_uid o) (co_gid o)) <$> (m_ents m !! q) else m_ents m !! q) /\
+    m_data m' = m_data m /\ m_cwd m' = m_cwd m /\ m_root m' = m_root m.
+Proof. exact chown_nofollow. Qed.
+Print Assumptions C11_chown_nofollow.
